@@ -208,12 +208,34 @@ def run_flow_pair_member(cfg, ids, role):
     status, exc = "ok", ""
     rid = {}
     try:
-        if c["backend"] == "zuko":
+        if c.get("load_from"):
+            # the proposal is read from a file written earlier (its seed is part of what was stored): two
+            # loads followed by the same draws give the same samples whatever the process did in between
+            import h5py
+            if c["backend"] == "zuko":
+                import torch
+                torch.set_num_threads(1)
+                from aspire.flows.torch.flows import ZukoFlow as FC
+            else:
+                get_xp("jax")
+                from aspire.flows.jax.flows import FlowJax as FC
+            with h5py.File(c["load_from"], "r") as f:
+                fl = FC.load(f, "flow")
+            x, lq = fl.sample_and_log_prob(c["n"])
+            lp = fl.log_prob(data[:8])
+
+            class hist:      # noqa
+                training_loss = [0.0]
+        elif c["backend"] == "zuko":
             import torch
             torch.set_num_threads(1)
             from aspire.flows.torch.flows import ZukoFlow
             fl = ZukoFlow(c["dims"], seed=seed_val, dtype=c["dtype"], hidden_features=[8, 8])
             hist = fl.fit(data, n_epochs=c["epochs"], batch_size=32)
+            if c.get("save_to"):
+                import h5py
+                with h5py.File(c["save_to"], "w") as f:
+                    fl.save(f, "flow")
             x, lq = fl.sample_and_log_prob(c["n"])
             lp = fl.log_prob(data[:8])
         else:
@@ -222,6 +244,10 @@ def run_flow_pair_member(cfg, ids, role):
             from aspire.flows.jax.flows import FlowJax
             fl = FlowJax(c["dims"], key=jax.random.key(int(seed_val)), dtype=c["dtype"], nn_width=8, nn_depth=1)
             hist = fl.fit(data, max_epochs=c["epochs"], batch_size=32, show_progress=False)
+            if c.get("save_to"):
+                import h5py
+                with h5py.File(c["save_to"], "w") as f:
+                    fl.save(f, "flow")
             x, lq = fl.sample_and_log_prob(c["n"])
             lp = fl.log_prob(data[:8])
         rid = {"x": ids.of(x), "lq": ids.of(lq), "lp": ids.of(to_np(lp)),
@@ -240,6 +266,29 @@ def run_flow_pair_member(cfg, ids, role):
 def flow_pair_group(gid, cfg):
     import random as _r
     ids = IdTable()
+    wd = None
+    if cfg.get("from_file"):
+        from common import workdir
+        wd = workdir("flowfile")
+        path = str(wd / "flow.h5")
+        run_flow_pair_member(dict(cfg, save_to=path), IdTable(), "single")      # writes the file
+        np.random.seed(1234); _r.seed(5)
+        try:
+            import torch
+            torch.manual_seed(4321)
+        except Exception:
+            pass
+        cfg = dict(cfg, load_from=path)
+    try:
+        return _flow_pair_group(gid, cfg, ids)
+    finally:
+        if wd is not None:
+            from common import cleanup
+            cleanup(wd)
+
+
+def _flow_pair_group(gid, cfg, ids):
+    import random as _r
     r1 = run_flow_pair_member(cfg, ids, "reference")
     # disturb every global generator before the second run
     np.random.seed(424242); _r.seed(77)
